@@ -759,8 +759,10 @@ class ABIReturnSubroutine:
         # Generate the ABI method object given the subroutine args
         # Add in description if one is set
         for name, val in self.subroutine.annotations.items():
-            # Skip annotations for `return` and `output` in the args list
-            if name in ["return", self.OUTPUT_ARG_NAME]:
+            # Skip annotations for `return` and the keyword-only `output` in the args list
+            if name == "return" or (
+                name == self.OUTPUT_ARG_NAME and self.output_kwarg_info is not None
+            ):
                 continue
 
             arg_obj = {
